@@ -72,6 +72,7 @@ func C16(run *mon.Run) {
 		go func(ki int, key namedKey) {
 			defer wg.Done()
 			defer func() { <-sem }()
+			defer run.Protect("c16 worker")
 			r := run.Rand(fmt.Sprintf("key-%d", ki))
 			ph := popHasher()
 			pk := key.sk.PublicKey()
